@@ -307,6 +307,8 @@ var regexpPool = []string{
 	`(\d+)x(\d+)`, `^\.\r\n$`, `\+OK (\d+) (\d+)\r\n`, "^[0-9]{5}", `<int>([0-9]+)</int>`, `(?i)abc`, `(?i)ǅ+`, `a{0}`, `a{3}b{2,4}`,
 	`^$`, ``, `\bfoo\b`, `a\b `, `(?m)^a$`, `x*?y+?z??`, `[[:alpha:]]+`, `\pL\p{Greek}`, `[α-ω]{2}`, `(a|b|c)(d|e)`, `(|a)b`, `a|`,
 	`\x{10FFFF}`, `[\x00-\x1f]`, `é{1,3}`, `(?i)straße`, `\Aab\z`, `[a-c]{0,2}[x-z]?`,
+	// families of character classes whose printed forms share a long prefix
+	`\p{Greek}{2}`, `[\p{Greek}\p{Han}]{2}`, `[\pL\pN_]{1,3}`, `[\pL\pM\pN_]{1,3}`, `\p{Latin}+`, `[\p{Latin}\p{Cyrillic}]+`, `[\p{Lu}]x`, `[\p{Lu}\p{Lt}]x`,
 }
 
 var bigRegexpPool = []string{
